@@ -5,7 +5,7 @@
    differential runs exercise). *)
 From Coq Require Import List Arith NArith Bool.
 From Coq.Strings Require Import Byte.
-From EZK Require Import Model.Forms8 Proofs.Forms8 Gen.Tables Lib.Bytes Lib.Num Lib.Utf8 Model.C03 Proofs.C03 Proofs.C03b Model.C02 Proofs.C02 Proofs.C02b Proofs.C02c.
+From EZK Require Import Model.Forms10 Proofs.Forms10 Model.Forms8 Proofs.Forms8 Gen.Tables Lib.Bytes Lib.Num Lib.Utf8 Model.C03 Proofs.C03 Proofs.C03b Model.C02 Proofs.C02 Proofs.C02b Proofs.C02c.
 From EZK Require Model.C10 Proofs.C10 Model.C17 Proofs.C17.
 Import ListNotations.
 Close Scope N_scope.
@@ -128,3 +128,14 @@ Proof. exact unwanted_from_key_panics. Qed.
 
 Example C02_unwanted_wellformed_agree : forall m b, unwanted_ok_form b m m = true.
 Proof. exact unwanted_forms_agree_on_wellformed. Qed.
+
+(* the character-class predicates index a fixed table: with the guard "strictly below the table's length" no character - in particular not
+   the first one behind the table (U+0080 for the 128-entry tables) - indexes out of bounds; with "<=" exactly that character panics *)
+Theorem C02_lookup_guard : lookup_index_guarded = true.
+Proof. reflexivity. Qed.
+
+Theorem C02_lookup_total : lookup_index_guarded = true -> forall table c, lookup table c <> None.
+Proof. exact lookup_here. Qed.
+
+Theorem C02_lookup_unguarded_refuted : forall table, lookup_form false table (length table) = None.
+Proof. exact lookup_unguarded_panics. Qed.
